@@ -267,7 +267,8 @@ def run(prop, tier, seed, t0, plans):
     idx = 0
     inconclusive = 0
     with ThreadPoolExecutor(max_workers=plans.CORES) as ex:
-        while time.time() < deadline:
+        # the time budget, extended (up to 5x) on a loaded machine until enough distinct traces were replayed
+        while time.time() < deadline or (len(m["states"]) < 300 and time.time() < deadline + 4 * budget):
             batch = [next(gen) for _ in range(64)]
             futs = [(t, ex.submit(run_trace, binpath, t, workdir, idx + i)) for i, t in enumerate(batch)]
             idx += len(batch)
